@@ -197,7 +197,11 @@ fn eval_instr<'a>(args: &[Option<Value<'a>>]) -> Option<Value<'a>> {
     let haystack = get_text(args.first()?)?;
     let needle = get_text(args.get(1)?)?;
 
-    let pos = haystack.find(needle.as_ref()).map(|p| p + 1).unwrap_or(0);
+    // str::find returns a byte offset: count the characters before the match
+    let pos = haystack
+        .find(needle.as_ref())
+        .map(|p| haystack[..p].chars().count() + 1)
+        .unwrap_or(0);
     Some(Value::Int(pos as i64))
 }
 
